@@ -1273,8 +1273,21 @@ func TestVerifC11(t *testing.T) {
 			for j := range c.Ops {
 				c.Ops[j].Done, c.Ops[j].Died, c.Ops[j].Closed, c.Ops[j].Events, c.Ops[j].Status = false, false, false, nil, 0
 			}
-			c.Id = i
+			// The ids of the replay file are kept: the driver re-runs failing cases to confirm
+			// them and matches the verdicts by case id (renumbering them here made every
+			// confirmation miss, so that genuine failures were dropped as "did not reproduce").
+			// Only a file without usable ids (all zero or repeated) is numbered by position.
 			g.cases = append(g.cases, &c)
+		}
+		seenId := map[int]bool{}
+		for _, c := range g.cases {
+			if seenId[c.Id] {
+				for i, c2 := range g.cases {
+					c2.Id = i
+				}
+				break
+			}
+			seenId[c.Id] = true
 		}
 	} else {
 		g.witnesses()
